@@ -62,6 +62,16 @@ def strategy(tier):
         program=st.lists(statement, min_size=1, max_size=12)))
 
 
+def mentions_sequence(a):
+    if a is None:
+        return False
+    if a[0] == 'S':
+        return True
+    if a[0] == 'J':
+        return False
+    return any(mentions_sequence(x) for x in a[1])
+
+
 def jsonable(x):
     if isinstance(x, (list, tuple)):
         return [jsonable(i) for i in x]
@@ -249,6 +259,11 @@ def run_program(case, res):
                     pending = None
                     if flat:
                         w.m_require(flat[0], targets)
+                    elif mentions_sequence(a):
+                        # what an empty sequence's required= designates when it names
+                        # another sequence (its last job now, or at the time of the first
+                        # append ?) is not specified: not compared
+                        pending = 'unspecified'
                     elif targets:
                         pending = targets
                     w.m_seqs.append(dict(jobs=list(flat), sched=s, pending=pending))
@@ -271,7 +286,12 @@ def run_program(case, res):
                     start = max(len(m['jobs']), 1)
                     for pos in range(start, len(chain)):
                         w.m_require(chain[pos], [chain[pos - 1]])
-                    if not m['jobs'] and flat and m['pending']:
+                    if not m['jobs'] and flat and m['pending'] == 'unspecified':
+                        first = flat[0]
+                        w.m_req[first] = {i for i, o in enumerate(w.jobs)
+                                          if any(o is r for r in w.jobs[first].required)}
+                        m['pending'] = None
+                    elif not m['jobs'] and flat and m['pending']:
                         w.m_require(flat[0], m['pending'])
                         m['pending'] = None
                     m['jobs'] = chain
